@@ -241,7 +241,7 @@ TB_ICU_LAWS = "ICU laws H_ascii and H_keep (Properties_C07.v) are explicit premi
 TB_ICU_LAWS2 = "ICU laws idna_ascii_lower (Properties_C08.v) and idna_idem (Proofs/ReparseDefs.v) are explicit premises of the invariance theorems (C02_reparse itself has none); they are sampled against the real ICU on every run, not proved"
 
 PROPS = {
-    "C13": P("proof", proof_search=c13_search, premain=True,
+    "C13": P("proof", streams=["setapply"], proof_search=c13_search, premain=True,
         trusted_base=[
             "translator T1: harness/dump_tables.cpp compiled by g++ in -std=c++11/14/17/20 against /repo's current headers and sources (-fno-access-control) + harness/gen_tables.py",
             "Spec.CodePoints: hand transcription of the Standard's set definitions (DESIGN appendix A.1)"],
